@@ -117,6 +117,24 @@ def _listed_ops():
         ("subsection", "repository", lambda E: setattr(E["subsection"], "repository", "r")),
         ("feature", "link_type", lambda E: setattr(E["feature"], "link_type", nixio.LinkType.Indexed)),
         ("feature", "data", lambda E: setattr(E["feature"], "data", E["da3"])),
+        # clearing an attribute is a change of that attribute too
+        ("block", "clear definition", lambda E: setattr(E["block"], "definition", None)),
+        ("data_array", "clear definition", lambda E: setattr(E["data_array"], "definition", None)),
+        ("data_array", "clear label", lambda E: setattr(E["data_array"], "label", None)),
+        ("data_array", "clear unit", lambda E: setattr(E["data_array"], "unit", None)),
+        ("data_array", "clear unit (empty)", lambda E: setattr(E["data_array"], "unit", "")),
+        ("data_array", "clear expansion_origin", lambda E: setattr(E["data_array"], "expansion_origin", None)),
+        ("data_array", "clear polynom_coefficients (empty)",
+         lambda E: setattr(E["data_array"], "polynom_coefficients", [])),
+        ("tag", "clear units", lambda E: setattr(E["tag"], "units", None)),
+        ("tag", "clear definition", lambda E: setattr(E["tag"], "definition", None)),
+        ("multi_tag", "clear units", lambda E: setattr(E["multi_tag"], "units", [])),
+        ("section", "clear reference", lambda E: setattr(E["section"], "reference", None)),
+        ("section", "clear repository", lambda E: setattr(E["section"], "repository", None)),
+        ("section", "clear definition", lambda E: setattr(E["section"], "definition", None)),
+        ("source", "clear definition", lambda E: setattr(E["source"], "definition", None)),
+        ("group", "clear definition", lambda E: setattr(E["group"], "definition", None)),
+        ("feature", "link_type (str)", lambda E: setattr(E["feature"], "link_type", "Tagged")),
     ]
 
 
@@ -167,7 +185,7 @@ def _policy(opi, auto, toggle, c0, c1, ops, path):
 def _ob_listed(opi: int, auto: bool, toggle: bool, c0: int, c1: int) -> bool:
     """
     pre: 0 <= c0 <= c1
-    pre: 0 <= opi < 40
+    pre: 0 <= opi < 60
     post: __return__
     """
     lo, hi = PART
@@ -295,7 +313,7 @@ def validate():
     wanted = {"type", "definition", "label", "unit", "expansion_origin", "polynom_coefficients",
               "position", "extent", "units", "positions", "extents", "reference", "repository",
               "link_type", "data"}
-    have = {lbl.replace("clear ", "") for _, lbl, _ in _listed_ops()}
+    have = {lbl.replace("clear ", "").split(" (")[0] for _, lbl, _ in _listed_ops()}
     missing = wanted - have
     if missing:
         raise AssertionError("setters of the statement without an obligation: %s" % sorted(missing))
@@ -320,7 +338,7 @@ OBLIGATIONS = [
                "semantic table of strftime/strptime directives + the civil-date algorithm, "
                "validated against the real functions on 3018 instants per run"),
     Ob("listed_setters_policy", _ob_listed, timeout=900,
-       partition=[(k, k + 3) for k in range(0, 36, 3)],
+       partition=[(k, k + 3) for k in range(0, 51, 3)],
        functions=[_E + "force_updated_at", _E + "type", _E + "definition",
                   "nixio.data_array.DataArray.label", "nixio.tag.Tag.position",
                   "nixio.multi_tag.MultiTag.positions", "nixio.section.Section.repository",
